@@ -591,7 +591,7 @@ class C17(Prop):
         return cases
 
     def search_cases(self, rng, neighbours, rnd):
-        return [gen_case17(rng, rng.choice(["valid", "valid", "malformed"])) for _ in range(160)]
+        return [gen_case17(rng, rng.choice(["valid", "valid", "malformed"])) for _ in range(100)]
 
     # ---- implementation -------------------------------------------------------------------
     def run_impl(self, case):
